@@ -57,6 +57,23 @@ def _private_callees(prog, f):
     return out
 
 
+def reader_choosers(prog, readers):
+    """Module-level functions of base.py that are not readers themselves but hand one out (`return _readline`,
+    `return partial(_readsegment, ...)`), transitively: a method that calls one of them obtains a reader."""
+    mod = prog.module(READERS_BASE)
+    out = set()
+    changed = True
+    while changed:
+        changed = False
+        for f in mod.functions.values():
+            if f.name in readers or f.name in out:
+                continue
+            if any(isinstance(x, ast.Name) and isinstance(x.ctx, ast.Load) and (x.id in readers or x.id in out) for x in walk_no_nested(f.node)):
+                out.add(f.name)
+                changed = True
+    return out
+
+
 def _facts(prog):
     """name -> (sends?, reads?) transitively over private helper methods of Client."""
     cache = prog.__dict__.setdefault("_exch_facts", None)
@@ -65,7 +82,8 @@ def _facts(prog):
     direct, readers = recv_reaching_functions(prog)
     client = prog.cls("Client")
     send = {n: _has_sendall(f) for n, f in client.methods.items()}
-    read = {n: any(isinstance(x, ast.Name) and x.id in readers and isinstance(x.ctx, ast.Load) for x in walk_no_nested(f.node)) for n, f in client.methods.items()}
+    choosers = reader_choosers(prog, readers)
+    read = {n: any(isinstance(x, ast.Name) and (x.id in readers or x.id in choosers) and isinstance(x.ctx, ast.Load) for x in walk_no_nested(f.node)) for n, f in client.methods.items()}
     changed = True
     while changed:
         changed = False
@@ -212,6 +230,11 @@ class ExchangeDomain(Domain):
             return [("ok", TOP, s2)] + self.call_raises(node, state)
         if name == "self._connect":
             return [("ok", NONE, state.set("self.sock", Neq(None)))] + self.call_raises(node, state)
+        if isinstance(node.func, ast.Name) and node.func.id in self.module.functions and node.func.id not in self.readers and node.func.id in reader_choosers(self.prog, self.readers):
+            # a module-level function that chooses the reader: followed, so that what it returns is a reader value
+            res = self.inline(node, self.module.functions[node.func.id], args, kwargs, state)
+            if res is not None:
+                return res
         if name in ("isinstance", "len", "logger.debug"):
             return [("ok", TOP, state)]
         if name.startswith("self.") and name.count(".") == 1 and self.prog is not None:
